@@ -188,7 +188,7 @@ PROPS = {
         assumptions=["ordinates zero or of magnitude within [1e-100, 1e100]"],
     ),
     "C11": dict(
-        modules=["GeomVerif.Properties.C11"],
+        modules=["GeomVerif.Properties.C11", "GeomVerif.Properties.C11Fold"],
         n_quick=12000, n_thorough=150000, thorough_seeds=3, min_theorems=5,
         rule="every closed triangle on the 4x4 integer grid x every grid point (65536 cases, exhaustive, each run; the thorough tier adds every "
              "closed quadrilateral x every grid point, 1048576 cases) + sampled quadrilaterals + random closed rings of 3..11 vertices (self-"
